@@ -40,9 +40,9 @@ def run(tier, out):
         events += totals
         # the same after a history: a simulation switched on and off, then an edit of a carbon intensity, a PUE, a network
         # intensity or the traffic -- each footprint must still be the energy times the intensity that applies NOW
-        n_hist = 25 if tier == "quick" else 500
-        edited = numcheck.edited_events(ns, range(base + 70000, base + 70000 + n_hist), 2,
-                                        kinds=("ci", "svci", "net", "pue", "starts", "overload", "overload", "burst"), simulate=True, with_fixed=True, group_prob=0.35, with_totals=True)
+        n_hist = 40 if tier == "quick" else 500
+        edited = numcheck.edited_events(ns, range(base + 70000, base + 70000 + n_hist), 3,
+                                        kinds=("ci", "svci", "net", "pue", "starts", "overload", "overload", "burst", "burst"), simulate=True, with_fixed=True, group_prob=0.35, with_totals=True)
         for e in edited:
             e["tid"] += 3 * 10 ** 6
         events += edited
